@@ -36,7 +36,7 @@ POSITIONS = [
     "root", "properties", "properties_typed", "patternProperties", "additionalProperties",
     "propertyNames", "dependencies", "items", "tuple_first", "tuple_last", "additionalItems_tuple",
     "additionalItems_plain", "additionalItems_single_items", "contains", "anyOf", "oneOf", "allOf", "not", "typelist", "required_sibling",
-    "definitions",
+    "definitions", "properties_shadowed", "deep_chain",
 ]
 REQUIRED_COUNTERS = (
     ["refused", "control_parsed", "cycle.refused", "negative_control_parsed", "route.main", "route.parse",
@@ -69,6 +69,17 @@ def place(inner, position, rng, title="Host"):
         return inner
     if position == "properties":
         return {"properties": {"p": inner, "q": {"type": "string"}}}
+    if position == "properties_shadowed":
+        # two JSON names that map onto ONE Python attribute: the first declaration is shadowed by the
+        # second - its schema is part of the document all the same
+        first, second = rng.choice([("user-id", "user_id"), ("a b", "a_b"), ("class", "class_"), ("x.y", "x_full_stop_y")])
+        return {"type": "object", "title": title, "properties": {first: inner, second: {"type": "string"}}}
+    if position == "deep_chain":
+        # far below the root, but well inside the depth the parser itself copes with
+        doc = inner
+        for level in range(rng.choice([120, 200, 252])):
+            doc = [{"items": doc}, {"contains": doc}, {"propertyNames": doc}, {"not": doc}][level % 4]
+        return doc
     if position == "properties_typed":
         return {"type": "object", "title": title, "properties": {"p": inner}, "required": ["p"]}
     if position == "patternProperties":
@@ -146,6 +157,18 @@ def attempt(sut, doc, route, ctx, idx):
         return sut.outcome_class(exc), exc
 
 
+def schema_depth(node):
+    depth, stack = 0, [(node, 0)]
+    while stack:
+        item, level = stack.pop()
+        depth = max(depth, level)
+        if isinstance(item, dict):
+            stack.extend((val, level + 1) for val in item.values())
+        elif isinstance(item, list):
+            stack.extend((val, level + 1) for val in item)
+    return depth
+
+
 def check_refusal(ctx, sut, doc, control, routes, label, idx):
     for route in routes:
         ctx.evaluation()
@@ -156,6 +179,11 @@ def check_refusal(ctx, sut, doc, control, routes, label, idx):
             # the control is a supported schema: failing to parse it would make
             # "refuse everything" pass.  Known orderer/name issues are not C20's.
             ctx.count("control_not_parsed." + ctrl_outcome)
+            if schema_depth(control) > 80:
+                # beyond what this interpreter's stack lets the parser (or the harness) walk: out of the
+                # statement's domain, not judged
+                ctx.count("deep_chain.beyond_budget_skipped")
+                continue
             if route != "main":
                 ctx.witness(
                     "control_refused", {"doc": control, "route": route, "label": label},
